@@ -27,6 +27,11 @@
 #include "rkcommon/tasking/parallel_foreach.h"
 #include "rkcommon/tasking/schedule.h"
 #include "rkcommon/tasking/tasking_system_init.h"
+#ifdef RKCOMMON_TASKING_TBB
+#include <tbb/task.h>
+#include <tbb/task_group.h>
+#endif
+#include <stdexcept>
 
 #include "rkcommon/verif_hooks.h"
 
@@ -339,6 +344,19 @@ int main(int argc, char **argv)
       while (blockers.load() < nb && std::chrono::duration_cast<std::chrono::milliseconds>(std::chrono::steady_clock::now() - t0).count() < 300)
         std::this_thread::yield();
       for (long k = 0; k < prefill; ++k) schedule([] { prefillDone++; });
+    }
+
+    // optional history: an earlier, unrelated loop whose body threw (the caller catches) or cancelled its group
+    const std::string pre = j.has("pre") ? j["pre"].str() : "none";
+    if (pre == "throw") {
+      try {
+        parallel_for(300, [](int i) { if (i == 137) throw std::runtime_error("item 137 is malformed"); });
+      } catch (const std::exception &) {
+      }
+    } else if (pre == "cancel") {
+#ifdef RKCOMMON_TASKING_TBB
+      parallel_for(300, [](int i) { if (i == 137) tbb::task::current_context()->cancel_group_execution(); });
+#endif
     }
 
     const std::string &t = sc.type;
